@@ -212,7 +212,7 @@ def check():
             if crashes:
                 o.extra["public_api_confirmation"] = crashes[:6]
         elif crashes:
-            o.inconc("translator validation failed: real front ends crash (%s) although every query holds" % crashes[:4])
+            o.oracle_only("real front ends crash (%s) although every query holds" % crashes[:4], rdir)
     return o.finish()
 
 
